@@ -1,0 +1,52 @@
+// Copyright Amazon.com, Inc. or its affiliates. All Rights Reserved.
+// SPDX-License-Identifier: GPL-2.0-only
+
+//! Verification hooks. Only compiled with the `verif` cargo feature, which no crate of this
+//! workspace enables. Re-exports wrappers around private items and provides the seam through
+//! which an external harness scripts the replies of chronyd.
+
+use chrony_candm::reply::Reply;
+use chrony_candm::request::RequestBody;
+use chrony_candm::ClientOptions;
+use std::cell::RefCell;
+use std::sync::Mutex;
+
+pub use crate::chrony_poller::verif::{phc_error_bound_from_path, run_poller, Poller};
+pub use crate::shm_writer::verif::{extract_bound, run_process_messages, Updater};
+
+/// A scripted chronyd: called in place of `chrony_candm::blocking_query_uds`.
+pub type Responder = Box<dyn FnMut(RequestBody, ClientOptions) -> std::io::Result<Reply> + Send>;
+
+thread_local! {
+    static THREAD_RESPONDER: RefCell<Option<Responder>> = const { RefCell::new(None) };
+}
+static GLOBAL_RESPONDER: Mutex<Option<Responder>> = Mutex::new(None);
+
+/// Install (or remove) the responder used by queries issued from the calling thread.
+pub fn set_thread_responder(r: Option<Responder>) {
+    THREAD_RESPONDER.with(|c| *c.borrow_mut() = r);
+}
+
+/// Install (or remove) the responder used by threads without a responder of their own.
+pub fn set_global_responder(r: Option<Responder>) {
+    *GLOBAL_RESPONDER.lock().unwrap() = r;
+}
+
+/// Query seam: scripted responder if one is installed, the real chronyd socket otherwise.
+pub fn blocking_query_uds(
+    request_body: RequestBody,
+    options: ClientOptions,
+) -> std::io::Result<Reply> {
+    let scripted = THREAD_RESPONDER.with(|c| c.borrow_mut().as_mut().map(|r| r(request_body, options)));
+    if let Some(reply) = scripted {
+        return reply;
+    }
+    // The lock is released before the scripted reply is returned; a responder that panics
+    // poisons the mutex, which is then treated as "no responder".
+    if let Ok(mut guard) = GLOBAL_RESPONDER.lock() {
+        if let Some(r) = guard.as_mut() {
+            return r(request_body, options);
+        }
+    }
+    chrony_candm::blocking_query_uds(request_body, options)
+}
